@@ -279,6 +279,11 @@ def canon_of(it, value, flavour='canon'):
     used('json.dumps(obj, indent=2, sort_keys=True).encode("utf-8") on symbolic obj: opaque token Canon(obj); Canon injective, Parse(Canon(v)) = v (A3; attacked by C07)')
     eng = it.eng
     eng.event('serialize', how=flavour)
+    if flavour == 'canon' and not has_sym(value):
+        try:
+            return json.dumps(value, indent=2, sort_keys=True).encode('utf-8')      # concrete value: the real bytes
+        except Exception as e:
+            raise PyExc(e)
     stamp = struct_stamp(value)
     cache = eng.path_local.setdefault('canon', {})
     key = (flavour, stamp)
